@@ -178,3 +178,28 @@ Example C10_loopback_examples :
   is_loopback_literal "[::]:4000" = false /\ is_loopback_literal "127.0.0.1:70000" = false /\ is_loopback_literal "127.0.0.1:004000" = true /\ is_loopback_literal "127.0.0.256:1" = false /\
   is_loopback_literal "192.168.1.2:4000" = false.
 Proof. vm_compute. repeat split; reflexivity. Qed.
+
+(* the hypotheses of the "breaks" theorems are satisfiable: a two-package graph whose dependency was never audited,
+   resp. is a net-client, resp. a stray socket site *)
+Example C10_unknown_crate_example :
+  let g := [(("app", "1"), [("dep", "1")]); (("dep", "1"), [])] in
+  Reach g [("app", "1")] ("dep", "1") /\ ~ In ("dep", "1") [("app", "1")] /\
+  class_of [] ("dep", "1") = None /\ check_crates g [] [("app", "1")] [("app", "1")] = false /\
+  class_of [(("dep", "1"), CNetClient)] ("dep", "1") = Some CNetClient /\
+  check_crates g [(("dep", "1"), CNetClient)] [("app", "1")] [("app", "1")] = false /\
+  check_crates g [(("dep", "1"), CPure)] [("app", "1")] [("app", "1")] = true.
+Proof.
+  cbv zeta. split.
+  - eapply Reach_step; [apply Reach_root; left; reflexivity | left; reflexivity].
+  - split; [intros [H | []]; inversion H |]. vm_compute. repeat split; reflexivity.
+Qed.
+
+Example C10_stray_site_example :
+  let s := mksite "harper-core/src/linting/an_a.rs" "lint" KNet "TcpStream::connect" """93.184.216.34:80""" "" "" in
+  is_net_kind (s_kind s) = true /\ ~ In s allowed_net_sites /\
+  net_sites_only_listener (s :: effect_sites) = false.
+Proof.
+  cbv zeta. split; [reflexivity |]. split.
+  - intros H. cbn in H. repeat (destruct H as [H | H]; [inversion H |]). exact H.
+  - vm_compute. reflexivity.
+Qed.
